@@ -178,7 +178,7 @@ OnInvoke(c, m, ev) ==
         m2 == EpisodeReset(m1)
         obj == IF ev.out = "excsame" /\ m.eobj # None THEN m.eobj ELSE m.ninv + 1
     IN  [m2 EXCEPT !.ninv = @ + 1, !.granted = g1, !.lastout = ev.out, !.invt1 = ev.t1,
-                   !.eobj = IF ev.out \in {"exc", "excsame"} THEN obj ELSE @, !.lastobj = obj,
+                   !.eobj = IF ev.out \in {"exc", "excsame", "hang"} THEN obj ELSE @, !.lastobj = obj,
                    !.pollSince = FALSE,
                    !.phase = IF ev.out = "ok" /\ ~c.rc THEN "ok" ELSE "inv",
                    !.abortReq = @ \/ ev.out = "abort",
@@ -218,7 +218,7 @@ OnRClassify(c, m, ev) ==
 
 OnClassify(c, m, ev) ==
     LET m1 == Checks(m, <<
-          <<m.phase = "inv" /\ m.lastout \in {"exc", "excsame"} /\ ev.n = m.lastobj,
+          <<m.phase = "inv" /\ m.lastout \in {"exc", "excsame", "hang"} /\ ev.n = m.lastobj,
                                            "C03:exception-classified-out-of-turn">>,
           \* an attempt that returned a value has succeeded or failed by its result: nothing of the
           \* library's own making may turn it into an exception-caused failure
